@@ -242,6 +242,24 @@ def prev_events_tail(runs, r):
     return []
 
 
+SIG_SNAP_WITH_ENTRIES = ("node/raft.go persistRaftState: Ready with incoming snapshot S AND entries above S in one wal.Save, death between the entry "
+                         "records and the hard state record: marker S not valid, ReadAll from the older snapshot meets the gap (index out of range)")
+
+
+def snap_with_entries_signature(runs, r):
+    """the open finding about a Ready that carries an incoming snapshot and entries: the life before the failed start
+    processed such a Ready and the start failed with ReadAll's 'index out of range'"""
+    if "index out of range" not in ((r.get("log") or "") + " " + (r.get("start") or "")):
+        return None
+    for p in runs:
+        if p["dir"] == r["dir"] and p["run"] == r["run"] - 1:
+            for e in p.get("events") or []:
+                f = e.split()
+                if f and f[0] == "rd.begin" and len(f) == 12 and f[1] != "0" and f[11] != "0":
+                    return SIG_SNAP_WITH_ENTRIES
+    return None
+
+
 def sig_of_log(logtxt, start):
     m = re.search(r"(wal: [a-z ]+|snap: [a-z ]+|no backup[a-z ]*|index out of range[a-z ,:]*|file not found|crc mismatch)", logtxt + " " + start)
     return m.group(1) if m else start.split(" ")[0]
@@ -417,7 +435,7 @@ def oracle_follower(runs):
             fails.append(dict(name="follower-norestart-d%d-r%d" % (r["dir"], r["run"]),
                               case=dict(ident, start=r["start"], log=(r.get("log") or "")[-3000:], listing=r.get("listing")),
                               what="the follower did not come back on its own directory after the crash (%s): %s" % (history[-2] if len(history) > 1 else "-", r["start"]),
-                              sig_hint=sig_of_log(r.get("log") or "", r["start"])))
+                              sig_hint=sig_of_log(r.get("log") or "", r["start"]), signature=snap_with_entries_signature(runs, r)))
             return fails, stats
         if r["run"] == 0:
             continue
